@@ -117,7 +117,7 @@ def parseStyle : String → Option Style
 def parseFb : String → Option FbKind
   | "absent" => some .absent | "pass" => some .passThrough | "custom" => some .custom | _ => none
 def parseShape : String → Option PrepShape
-  | "results" => some .results | "anys" => some .anys | "typed" => some .typed
+  | "results" => some .results | "anys" => some .anys | "typed" => some .typed | "ptrs" => some .typed   -- a typed slice of pointers (nil elements included): the same generic ToSlice path
   | "single" => some .single | "nil" => some .nilv | _ => none
 
 def leafCfgOf (j : LeafCfgJ) : Option LeafCfg := do
